@@ -212,6 +212,19 @@ example : congruent_ui_p 0 (-5) 19 12 = true ∧ ¬ congruent_ui_p 0 (-5) 18 12 
   ⟨(congruent_ui_p_iff 0 _ _ _ (by decide) (by decide)).mpr (by decide),
    fun h => absurd ((congruent_ui_p_iff 0 _ _ _ (by decide) (by decide)).mp h) (by decide)⟩
 
+/-! ## multi-limb layer: the contract model used for mpn_tdiv_qr -/
+
+/-- The value-level contract model of mpn_tdiv_qr (what the correspondence compares the real function with) is
+    defined on the whole documented domain (nn ≥ dn ≥ 1, top divisor limb non-zero) and its nn-dn+1 quotient
+    limbs and dn remainder limbs are exactly ⌊n/d⌋ and n mod d: n = q·d + r, r < d.  (The limb-level
+    bookkeeping of mpn/generic/tdiv_qr.c itself is tied by correspondence only.) -/
+theorem mpn_tdiv_qr_contract (n d : List Nat) (hn : Limbs n) (hd : Limbs d) (ht : topNonzero d = true)
+    (hl : d.length ≤ n.length) :
+    ∃ q r, mpnTdivQr n d = some (q, r) ∧ q.length = n.length - d.length + 1 ∧ r.length = d.length ∧ Limbs q ∧ Limbs r ∧
+      val q = val n / val d ∧ val r = val n % val d ∧ val n = val q * val d + val r ∧ val r < val d :=
+  mpnTdivQr_contract n d hn hd ht hl
+example : mpnTdivQr [5, 7] [3] = some ([6148914691236517207, 2], [0]) := by decide
+
 /-! ## division by zero -/
 
 /-- every function of the family that divides raises DIVIDE_BY_ZERO for a zero divisor, before any
